@@ -339,3 +339,16 @@ package spynode
 //@   requires node != nil
 //@   loop * invariant ncalls(Close) >= 0
 //@   assert saved_after_the_queue_is_drained at call TxRepository.Save : [C03 C11] ncalls(Close) >= 2 && processingCount == 0
+
+// C12 (garbage from an untrusted peer must not take the node down): in the untrusted receive loop only
+// a message that was read without an error reaches the handlers and the code after them; every read
+// error either skips the message or ends the loop.
+//@ func (*UntrustedNode).monitorIncoming
+//@   serves C12
+//@   opt nomonitor = 1
+//@   opt partial = 1
+//@   opt track = ReadMessageN
+//@   opt abstract = check isStopping Stop handleMessage UpdateScore
+//@   requires node != nil
+//@   loop * invariant ncalls(ReadMessageN) >= 0
+//@   assert only_good_reads_are_handled at call handleMessage : ncalls(ReadMessageN) >= 1 && lastres(ReadMessageN, 3, error) == nil
